@@ -390,6 +390,17 @@ func (r *clientRig) yield(pt string) {
 	<-g
 }
 
+// disarm clears a park request that no goroutine consumed (the operation
+// returned before reaching the yield point).
+func (r *clientRig) disarm() {
+	r.parkMu.Lock()
+	if r.parkPt != "" {
+		delete(r.gates, r.parkKey)
+		r.parkPt, r.parkKey = "", ""
+	}
+	r.parkMu.Unlock()
+}
+
 func (r *clientRig) release(key string) {
 	r.parkMu.Lock()
 	g := r.gates[key]
@@ -481,15 +492,15 @@ func (r *clientRig) do(a CAct) {
 		if cs == nil {
 			return
 		}
-		if a.Park {
-			r.arm("cs.recv.checked", fmt.Sprintf("recv%d", a.C))
-		}
 		k := fmt.Sprintf("(%d, 1)", a.C)
 		r.mu.Lock()
 		busy := r.pend[k]
 		r.mu.Unlock()
 		if busy {
 			return
+		}
+		if a.Park {
+			r.arm("cs.recv.checked", fmt.Sprintf("recv%d", a.C))
 		}
 		r.setPending(k, true)
 		c := a.C
@@ -841,6 +852,7 @@ func runClientScenario(t *testing.T, idx int, kind string, sc clientScenario, em
 			nBefore := rig.nCalls
 			rig.do(a)
 			synctest.Wait()
+			rig.disarm()
 			wdProgress.Add(1)
 			// new writes: log them as events, learn ids
 			ws := ep.WrittenCopy()
@@ -881,8 +893,22 @@ func runClientScenario(t *testing.T, idx int, kind string, sc clientScenario, em
 		wd.mu.Lock()
 		wd.active = false
 		wd.mu.Unlock()
-		// No cleanup: goroutines still blocked here are abandoned together with the
-		// bubble (unblocking them could itself wedge the client, see D-11c).
+		// Cleanup, not compared with the model: release every parked goroutine, cancel
+		// every caller context and fail the transport read. Afterwards no goroutine of
+		// the client may remain (a leak makes the bubble panic: "leaked-at-end").
+		verifhook.SetYield(nil)
+		rig.parkMu.Lock()
+		for k, g := range rig.gates {
+			close(g)
+			delete(rig.gates, k)
+		}
+		rig.parkPt = ""
+		rig.parkMu.Unlock()
+		for _, c := range rig.ctxs {
+			c.finish(context.Canceled)
+		}
+		ep.FailRead(errInjected)
+		synctest.Wait()
 	})
 	wd.mu.Lock()
 	wd.active = false
